@@ -395,6 +395,11 @@ def pad(
     fill_value = grid._complete_user_kwargs_using_axis_defaults(
         fill_value, "fill_value"
     )
+    for ax_fill_value in fill_value.values():
+        # same requirement as for the Grid-level fill value: text is not a fill value, even if
+        # numpy could parse it as a number
+        if isinstance(ax_fill_value, (str, bytes)):
+            raise TypeError("fill value must be a number")
 
     # Exit without padding if all widths are zero
     if padding_width is None or all(
